@@ -674,6 +674,29 @@ static void run_c14(const Args& A, std::map<std::string, std::string>& extra) {
   { Dict d; run_assignment(d); }
   for (int k = 0; k < 8; k++)
     for (size_t i = 1; i < M[k].size(); i++) { Dict d; d.c[k] = M[k][i]; run_assignment(d); }
+  // the part-structure grammar: the shortcut classifier in compile() looks at (number of parts, part type, modifier,
+  // prefix, suffix, custom regexp), so every single-part group  "{" prefix part suffix "}" modifier  over
+  // part in {*, :n, (.*), ([a-z]+), none} x prefix/suffix in {empty, literal} x modifier in {none,?,*,+}, and the same
+  // part without braces, is compiled for every component alone (both modes of the forced-REGEXP twin, all inputs)
+  {
+    static const char* PRE[8] = {"http", "us", "pa", "sub.", "80", "/a", "q=", "fr"};
+    static const char* SUF[8] = {"s", "er", "ss", ".com", "80", "/b", "1", "ag"};
+    static const char* PART[] = {"*", ":n", "(.*)", "([a-z]+)", ""};
+    static const char* MOD[] = {"", "?", "*", "+"};
+    uint64_t ngram = 0;
+    for (int k = 0; k < 8; k++)
+      for (const char* part : PART)
+        for (int pf = 0; pf < 2; pf++)
+          for (int sf = 0; sf < 2; sf++)
+            for (const char* mod : MOD) {
+              std::string inner = std::string(pf ? PRE[k] : "") + part + (sf ? SUF[k] : "");
+              if (inner.empty()) continue;
+              Dict d; d.c[k] = "{" + inner + "}" + mod; run_assignment(d); ngram++;
+              if (!pf && !sf && *part) { Dict e; e.c[k] = std::string(part) + mod; run_assignment(e); ngram++; }
+              if (*part && (pf || sf)) { Dict e; e.c[k] = std::string(pf ? PRE[k] : "") + part + mod + (sf ? SUF[k] : ""); run_assignment(e); ngram++; }
+            }
+    R.count("grammar_patterns", ngram);
+  }
   // every unordered pair of components x every pair of menu values (both tiers: it is cheap enough)
   auto full = [&](int k) { std::vector<int> v; for (size_t i = 1; i < M[k].size(); i++) v.push_back(int(i)); return v; };
   std::string pairs = A.get("pairs", "full"), triples = A.get("triples", T ? "wide" : "small");
